@@ -260,6 +260,11 @@ def value_shape(v, got) -> str:
     return 'value:magnitude'
 
 
+def fkey(fmt: str, mode: str) -> str:
+    """Format part of a mechanism key: the overflow mode only where the format's definition depends on it."""
+    return f'{fmt}/{mode}' if mf.CODECS[fmt].mode_sensitive else fmt
+
+
 def hx(x: float) -> str:
     return float(x).hex()
 
@@ -315,7 +320,7 @@ def judge_enc(ctx, c):
             opname = f'encode-route:{route}' if (route != 'kw' and kw_good) else 'encode'
             one = dict(c, routes=[route])
             one.pop('key', None)
-            ctx.mismatch(f'C11|{opname}|{fmt}/{mode}:{ic}|{problem or code_shape(fmt, exp, got)}', one,
+            ctx.mismatch(f'C11|{opname}|{fkey(fmt, mode)}:{ic}|{problem or code_shape(fmt, exp, got)}', one,
                          f'{nm}={x!r} ({hx(x)}) mode={mode} route={route} cls={c["cls"]}: got '
                          f'{res[1] if res[0] == "ok" else repr(res[1])[:80]} expected code {exp}')
     ctx.state(fmt, mode, exp)
@@ -394,7 +399,7 @@ def judge_rt(ctx, c):
             if problem is None and got == exp:
                 ctx.ok(f'{fmt}|{mode}|rt|{code:x}', code != 0)
             else:
-                ctx.mismatch(f'C11|roundtrip|{fmt}/{mode}:{value_class(v)}|{problem or code_shape(fmt, exp, got)}',
+                ctx.mismatch(f'C11|roundtrip|{fkey(fmt, mode)}:{value_class(v)}|{problem or code_shape(fmt, exp, got)}',
                              dict(c, lo=code, hi=code + 1), f'{nm} code {code:#x} mode={mode}: came back as {got}')
 
 
@@ -469,12 +474,18 @@ def judge_senc(ctx, c):
                 ctx.ok((fmt, mode, 'senc', c['scale'][1], ic, route), x != 0)
                 continue
             shape = problem or code_shape(fmt, exp, got)
-            if problem is None and scale != 1:
-                if codec.acceptable(codec.encode(x, mode), got):
-                    shape = 'scale-ignored'
-                elif codec.acceptable(codec.encode(x * scale, mode), got):
-                    shape = 'multiplied'
-            ctx.mismatch(f'C11|scaled-encode:{route}|{fmt}/{mode}:{ic}/scale-{sclass}|{shape}', dict(c, routes=[route]),
+            mech = f'C11|scaled-encode:{route}|{fkey(fmt, mode)}:{ic}/scale-{sclass}|{shape}'
+            if problem is None:
+                # the division was done and the unscaled codec itself mis-encodes x/scale: that is the
+                # plain encode mechanism, not one of the scaling layer
+                base = got_code(lib_encode('kw', c['cls'], fmt, c['nm'], y), codec.nbits)
+                if base == (got, None):
+                    mech = f'C11|encode|{fkey(fmt, mode)}:{ic}|{shape}'
+                elif scale != 1 and codec.acceptable(codec.encode(x, mode), got):
+                    mech = mech.rsplit('|', 1)[0] + '|scale-ignored'
+                elif scale != 1 and codec.acceptable(codec.encode(x * scale, mode), got):
+                    mech = mech.rsplit('|', 1)[0] + '|multiplied'
+            ctx.mismatch(mech, dict(c, routes=[route]),
                          f'{c["nm"]} scale={scale!r} x={x!r} (x/scale={y!r}) mode={mode} route={route}: got '
                          f'{res[1] if res[0] == "ok" else repr(res[1])[:80]} expected code {exp}')
 
